@@ -46,9 +46,9 @@ func (v *Validator) ValidateAll(ctx context.Context) (*ValidationReport, error) 
 		Results:   []ValidationResult{},
 	}
 
-	// Find PartStore using reflection
-	partStore := findPartStore(v.storage)
-	if partStore == nil {
+	// Find the part stores using reflection
+	partStores := findPartStores(v.storage)
+	if partStores == nil {
 		return nil, fmt.Errorf("could not find PartStore in storage hierarchy")
 	}
 
@@ -102,7 +102,7 @@ func (v *Validator) ValidateAll(ctx context.Context) (*ValidationReport, error) 
 			slog.Info(fmt.Sprintf("Validating object %d (Bucket: %s, Object: %s) - Rate: %.2f obj/s",
 				processedObjects, bucket.Name, object.Key, rate))
 
-			result := v.validateObject(ctx, db, partStore, partRepo, objectRepo, bucket.Name, object)
+			result := v.validateObject(ctx, db, partStores, partRepo, objectRepo, bucket.Name, object)
 			report.Results = append(report.Results, result)
 
 			if result.Success {
@@ -133,7 +133,7 @@ func (v *Validator) ValidateAll(ctx context.Context) (*ValidationReport, error) 
 	return report, nil
 }
 
-func (v *Validator) validateObject(ctx context.Context, db database.Database, partStore partstore.PartStore,
+func (v *Validator) validateObject(ctx context.Context, db database.Database, partStores *partstore.NamedPartStores,
 	partRepo part.Repository, objectRepo object.Repository,
 	bucketName storage.BucketName, object storage.Object) ValidationResult {
 
@@ -165,7 +165,11 @@ func (v *Validator) validateObject(ctx context.Context, db database.Database, pa
 
 		for _, part := range parts {
 			// Read part content
-			reader, err := partStore.GetPart(ctx, tx, part.PartId)
+			var reader io.ReadCloser
+			partStore, err := partStores.ByName(part.PartStoreName)
+			if err == nil {
+				reader, err = partStore.GetPart(ctx, tx, part.PartId)
+			}
 			if err != nil {
 				result.Success = false
 				result.ErrorType = "Part retrieval failed"
@@ -382,7 +386,7 @@ func (v *Validator) confirmDeletion(result ValidationResult) bool {
 	return false
 }
 
-func findPartStore(s interface{}) partstore.PartStore {
+func findPartStores(s interface{}) *partstore.NamedPartStores {
 	val := reflect.ValueOf(s)
 	if val.Kind() == reflect.Ptr {
 		val = val.Elem()
@@ -391,26 +395,43 @@ func findPartStore(s interface{}) partstore.PartStore {
 		return nil
 	}
 
-	// Check if any field is a PartStore
+	namedType := reflect.TypeOf((*partstore.NamedPartStores)(nil))
 	partStoreType := reflect.TypeOf((*partstore.PartStore)(nil)).Elem()
-
 	for i := 0; i < val.NumField(); i++ {
 		field := val.Field(i)
+		if field.Type() == namedType {
+			named := reflect.NewAt(field.Type(), unsafe.Pointer(field.UnsafeAddr())).Elem().Interface().(*partstore.NamedPartStores)
+			if named != nil {
+				return named
+			}
+		}
 		if field.Type().Implements(partStoreType) {
-			// Handle unexported fields
-			return reflect.NewAt(field.Type(), unsafe.Pointer(field.UnsafeAddr())).Elem().Interface().(partstore.PartStore)
+			// a storage holding a single part store directly
+			single := reflect.NewAt(field.Type(), unsafe.Pointer(field.UnsafeAddr())).Elem().Interface().(partstore.PartStore)
+			if named, err := partstore.NewNamedPartStores(single, nil, nil); err == nil {
+				return named
+			}
 		}
 	}
 
-	// Recurse into fields that implement Storage
+	// Recurse into fields that implement Storage and into embedded/plain struct
+	// fields (the storage middlewares keep their inner storage in an embedded
+	// delegator.DelegatingStorage value)
 	storageType := reflect.TypeOf((*storage.Storage)(nil)).Elem()
 	for i := 0; i < val.NumField(); i++ {
 		field := val.Field(i)
+		if !field.CanAddr() {
+			continue
+		}
 		if field.Type().Implements(storageType) {
-			// Recurse
 			inner := reflect.NewAt(field.Type(), unsafe.Pointer(field.UnsafeAddr())).Elem().Interface()
-			if bs := findPartStore(inner); bs != nil {
-				return bs
+			if ps := findPartStores(inner); ps != nil {
+				return ps
+			}
+		} else if field.Kind() == reflect.Struct {
+			inner := reflect.NewAt(field.Type(), unsafe.Pointer(field.UnsafeAddr())).Interface()
+			if ps := findPartStores(inner); ps != nil {
+				return ps
 			}
 		}
 	}
